@@ -31,6 +31,10 @@ type functionOperator struct {
 	call         FunctionCall
 	scalarPoints [][]float64
 	pointBuf     []promql.Point
+
+	// dedup merges series which get the same label set because
+	// the function drops the metric name.
+	dedup *model.SeriesDeduplicator
 }
 
 type noArgFunctionOperator struct {
@@ -226,6 +230,9 @@ func (o *functionOperator) Next(ctx context.Context) ([]model.StepVector, error)
 		}
 		vectors[batchIndex].Samples = vector.Samples[:kept]
 		vectors[batchIndex].SampleIDs = vector.SampleIDs[:kept]
+		if err := o.dedup.Apply(vectors[batchIndex].SampleIDs); err != nil {
+			return nil, err
+		}
 	}
 
 	return vectors, nil
@@ -260,6 +267,7 @@ func (o *functionOperator) loadSeries(ctx context.Context) error {
 
 			o.series[i] = lbls
 		}
+		o.dedup, o.series = model.NewSeriesDeduplicator(o.series, false)
 	})
 
 	return err
